@@ -199,6 +199,9 @@ def run(ctx, run):
     _header_complete_by_offset(ctx, run)
     _services_accumulate(ctx, run, P.need("vbi_proxyd_take_service_req", UNIT))
     _recycled_buffer_unreferenced(ctx, run, P.need("vbi_proxy_queue_get_free", UNIT))
+    # a started request is received completely before the daemon writes to that client again (rule shared with C19)
+    from . import C19
+    C19._started_read_is_finished_first(ctx, run, ctx.prog.need("vbi_proxyd_get_fd_set", "daemon/proxyd.c"))
     _sent_frame_released(ctx, run, P.need("vbi_proxyd_handle_client_sockets", UNIT))
     from .. import sweep
     sweep.run(ctx, run, ["src/proxy-client.c"], {}, 10)
